@@ -37,6 +37,8 @@ class Model:
             raise RuntimeError("model driver not built: " + DRIVER)
         self.p = subprocess.Popen([DRIVER], stdin=subprocess.PIPE, stdout=subprocess.PIPE, text=True, bufsize=1)
         self.calls = 0
+        self.reservoir = []          # sampled (line, reply) pairs for the vm_compute cross-check of the extraction
+        self._rs = __import__("random").Random(12345)
 
     def call(self, op, zs=(), qs=()):
         zs = list(zs); qs = list(qs)
@@ -45,6 +47,13 @@ class Model:
         self.p.stdin.flush()
         out = self.p.stdout.readline()
         self.calls += 1
+        if len(line) < 1500 and len(out) < 1500 and out.split()[0] in ("OK", "ERR"):
+            if len(self.reservoir) < 40:
+                self.reservoir.append((op, zs, [enc_q(q) for q in qs], out.strip()))
+            else:
+                k = self._rs.randrange(self.calls)
+                if k < 40:
+                    self.reservoir[k] = (op, zs, [enc_q(q) for q in qs], out.strip())
         if not out:
             raise RuntimeError("model driver died on: " + line[:200])
         t = out.split()
@@ -90,3 +99,45 @@ def rflat(arr):
 def to_c(vals):
     """list of Fractions interleaved -> list of complex"""
     return [complex(float(vals[2 * i]), float(vals[2 * i + 1])) for i in range(len(vals) // 2)]
+
+
+def coq_q(tok):
+    n, d = tok.split("/")
+    return "(rat_make (%d)%%Z %d%%positive)" % (int(n, 16), int(d, 16))
+
+
+def crosscheck_vm(model, mods, scratch, limit=12):
+    """re-evaluate sampled driver requests inside Coq with vm_compute (no extraction involved).
+    returns (checked, mismatches:list)"""
+    import random
+    samp = list(model.reservoir)
+    random.Random(7).shuffle(samp)
+    samp = samp[:limit]
+    if not samp:
+        return 0, []
+    os.makedirs(scratch, exist_ok=True)
+    lines = ["From Coq Require Import List ZArith QArith Qcanon.", "From QV.Exec Require Import Base.", "Import ListNotations."]
+    for m in mods:
+        lines.append("From QV.Exec Require %s_ops." % m)
+    lines.append("Definition ops : optable := nil" + "".join(" ++ %s_ops.%s_ops" % (m, m) for m in mods) + ".")
+    for i, (op, zs, qs, reply) in enumerate(samp):
+        t = reply.split()
+        if t[0] == "OK":
+            exp = "Ok [%s]" % "; ".join(coq_q(x) for x in t[1:])
+        else:
+            exp = "Err (%d)%%Z" % int(t[1], 16)
+        lines.append('Definition chk%d : bool := res_eqb (run_table ops "%s"%%string [%s] [%s]) (%s).' % (
+            i, op, "; ".join("(%d)%%Z" % int(z) for z in zs), "; ".join(coq_q(x) for x in qs), exp))
+        lines.append("Eval vm_compute in chk%d." % i)
+    path = os.path.join(scratch, "XCheck.v")
+    open(path, "w").write("\n".join(lines) + "\n")
+    r = subprocess.run(["timeout", "600", "coqc", "-Q", os.path.join(V, "coq", "theories"), "QV", path], capture_output=True, text=True)
+    outs = re.findall(r"=\s*(true|false)", r.stdout)
+    bad = []
+    if r.returncode != 0 or len(outs) != len(samp):
+        bad.append({"error": (r.stdout + r.stderr)[-800:]})
+    else:
+        for (op, zs, qs, reply), o in zip(samp, outs):
+            if o != "true":
+                bad.append({"op": op, "zs": zs, "qs": qs, "driver_reply": reply})
+    return len(samp), bad
